@@ -1,7 +1,7 @@
 """C13 - assembly output is a pure function of its inputs.
 
 Explicit-state search over assemble-call histories in ONE process (K2): every history of depth <= 2
-(thorough: depth 3 over a 9-action core) over 25 actions (stl programs at w=64/32, a no-stl program at w=16, werror on, a parse
+(thorough: depth 3 over a 9-action core) over 27 actions (stl programs at w=64/32, a no-stl program at w=16, werror on, a parse
 failure inside nested namespaces, a lexing error, an unknown macro after the stl cache was filled, a
 macro-recursion overflow with max_recursion_depth=5, runs with max_recursion_depth=2000 and 4000, programs behind a 1- or 2-file stl prefix with one to three user files, a
 rep-heavy program, a program with 60 000 labels (a multi-megabyte debug file), a program that raises a syntax warning (with and without warnings-as-errors, one fixed path), the stl under other short names, other user short names, another directory) is run
@@ -37,6 +37,8 @@ BIGLABELS = 'def m @ a_rather_long_local_label_name_for_the_debug_table {\n  a_r
 NSM1 = 'ns t {\n  def pick x @ end, skip {\n    ;skip\n    end:\n    ;x\n    skip:\n    ;.end\n  }\n}\nt.pick 0\nt.pick 2*w\n'
 # the same namespaced macro name and arity, other names for the parameter and the local labels, in another order
 NSM2 = 'ns t {\n  def pick y @ skip, end, more {\n    ;end\n    skip:\n    ;y\n    end:\n    ;.skip\n    more:\n    ;.more\n  }\n}\nt.pick 4*w\n'
+WFLIP_LOW = 'x:\n  wflip x+w, 5, y\ny:\n  ;y\n'
+WFLIP_HIGH = 'x:\n  wflip x+w, (1 << 40) + (1 << 20) + 5, y\ny:\n  wflip x+w, (1 << 62) + 3, z\nz:\n  ;z\n'
 PREFIXED = 'pa:\n  ;pb\npb:\n  pa;pa\n'
 USES_NAMES = 'stl.startup\n;LEN\nLEN:\n;VAL\nVAL:\nstl.loop\n'
 
@@ -59,6 +61,8 @@ ACTIONS = [
     ('defines-constants32', CONSTS, dict(w=32, use_stl=True)),
     ('defines-constants-then-fails', CONSTS_FAIL, dict(w=64, use_stl=True)),
     ('depth-4000', NOSTL, dict(w=16, use_stl=False, max_recursion_depth=4000)),
+    ('wflip-at-width-16', WFLIP_LOW, dict(w=16, use_stl=False)),
+    ('wflip-at-width-32', WFLIP_LOW, dict(w=32, use_stl=False)),
     ('namespaced-macro-variant-1', NSM1, dict(w=64, use_stl=False)),
     ('namespaced-macro-variant-2', NSM2, dict(w=64, use_stl=False)),
     ('sixty-thousand-labels', BIGLABELS, dict(w=64, use_stl=False)),
@@ -77,6 +81,7 @@ PROBES = [
     ('p-rep64-werror-v1', REPHEAVY, dict(w=64, use_stl=True, version=1, werror=True)),
     ('p-names64-v1', USES_NAMES, dict(w=64, use_stl=True, version=1)),
     ('p-names32-v3', USES_NAMES, dict(w=32, use_stl=True, version=3)),
+    ('p-wflip-high-bits-64', WFLIP_HIGH, dict(w=64, use_stl=False, version=1)),
     ('p-namespaced-macro-variant-1', NSM1, dict(w=64, use_stl=False, version=1)),
     ('p-namespaced-macro-variant-2', NSM2, dict(w=64, use_stl=False, version=2)),
     ('p-warning-werror', WARN, dict(w=64, use_stl=False, werror=True, version=1, filename='warn.fj')),
